@@ -468,6 +468,144 @@ def combine_probe(res, rng):
             break
 
 
+def snapshot_model(g, XA):
+    """everything of a fitted model that a search on OTHER data must leave alone (compared bitwise)"""
+    from pygam.utils import flatten
+    snap = dict(coef=np.array(g.coef_, dtype=float).copy(),
+                n_splines=[None if v is None else int(v) for v in flatten(g.n_splines)],
+                lam=[float(v) for v in flatten(g.lam)],
+                edge_knots=[None if k is None else np.array(k, dtype=float).copy() for k in g.edge_knots_],
+                n_coefs=int(g.terms.n_coefs),
+                stats={k: (np.array(v, dtype=float).copy() if isinstance(v, (np.ndarray, float, int, np.floating, np.integer)) else None)
+                       for k, v in g.statistics_.items()})
+    try:
+        snap['pred'] = np.array(quiet(g.predict, XA), dtype=float).copy()
+        snap['pred_error'] = None
+    except Exception as e:
+        snap['pred'] = None
+        snap['pred_error'] = '%s: %s' % (type(e).__name__, e)
+    return snap
+
+
+def snapshot_diff(a, b):
+    out = []
+    if a['coef'].shape != b['coef'].shape or not np.array_equal(a['coef'], b['coef']):
+        out.append('coef_')
+    for k in ('n_splines', 'lam', 'n_coefs'):
+        if a[k] != b[k]:
+            out.append('%s %r -> %r' % (k, a[k], b[k]))
+    if len(a['edge_knots']) != len(b['edge_knots']) or any(
+            (x is None) != (y is None) or (x is not None and (x.shape != y.shape or not np.array_equal(x, y)))
+            for x, y in zip(a['edge_knots'], b['edge_knots'])):
+        out.append('edge_knots_ %r -> %r' % ([None if x is None else x.tolist() for x in a['edge_knots']],
+                                              [None if x is None else x.tolist() for x in b['edge_knots']]))
+    if sorted(a['stats']) != sorted(b['stats']):
+        out.append('statistics_ keys')
+    else:
+        for k, v in a['stats'].items():
+            w = b['stats'][k]
+            if (v is None) != (w is None) or (v is not None and (v.shape != w.shape or not np.array_equal(v, w, equal_nan=True))):
+                out.append('statistics_[%s]' % k)
+    if b['pred_error'] != a['pred_error']:
+        out.append('predict on the training data now raises %s' % b['pred_error'])
+    elif a['pred'] is not None and not np.array_equal(a['pred'], b['pred']):
+        out.append('predictions on the training data (max abs change %g)' % float(np.max(np.abs(a['pred'] - b['pred']))))
+    return out
+
+
+def other_data_probe(res, rng, count):
+    """A model fitted on data A is searched on DIFFERENT data B (other rows, a factor level missing or shifted, another
+    numeric range).  keep_best=False must leave the fitted model bitwise alone; keep_best=True with a grid that cannot
+    beat the model must leave it being itself.  Candidate scores on B are not asserted (candidates are deep copies that
+    keep the knots of A: known finding S6a)."""
+    import pygam
+    from pygam import s, f, l
+    for t in range(count):
+        r = np.random.RandomState(rng.randrange(2 ** 31))
+        cls = rng.choice(['LinearGAM', 'LinearGAM', 'PoissonGAM', 'GammaGAM', 'LogisticGAM'])
+        nA = rng.randint(60, 120)
+        nlev = rng.randint(3, 5)
+        with_lin = rng.random() < 0.5
+        x0 = r.uniform(0, 1, nA)
+        x1 = r.randint(0, nlev, nA).astype(float)
+        x1[:nlev] = np.arange(nlev)                       # every level present in A
+        x2 = r.uniform(-1, 1, nA)
+        eff = r.uniform(-1, 1, nlev)
+        eta = np.sin(4 * x0) + eff[x1.astype(int)] + (0.5 * x2 if with_lin else 0.0)
+        XA = np.c_[x0, x1, x2] if with_lin else np.c_[x0, x1]
+
+        def response(eta_, rr):
+            if cls == 'LinearGAM':
+                return eta_ + 0.2 * rr.randn(len(eta_))
+            if cls == 'PoissonGAM':
+                return rr.poisson(np.exp(eta_)).astype(float)
+            if cls == 'GammaGAM':
+                return rr.gamma(3.0, np.exp(eta_) / 3.0) + 1e-3
+            return (rr.rand(len(eta_)) < 1 / (1 + np.exp(-2 * eta_))).astype(float)
+        yA = response(eta, r)
+        kindB = rng.choice(['level-missing', 'level-missing', 'top-level-missing', 'numeric-range', 'rows-only'])
+        keep = np.ones(nA, dtype=bool)
+        if kindB == 'level-missing':
+            keep = x1 != float(rng.randrange(nlev - 1))   # an inner / the lowest level does not occur in B
+        elif kindB == 'top-level-missing':
+            keep = x1 != float(nlev - 1)
+        elif kindB == 'numeric-range':
+            keep = (x0 > 0.25) & (x0 < 0.8)
+        else:
+            keep = r.rand(nA) < 0.6
+        if keep.sum() < 25:
+            continue
+        XB = XA[keep].copy()
+        if kindB == 'numeric-range' and with_lin:
+            XB[:, 2] = XB[:, 2] * 0.5
+        keep_best = rng.random() < 0.5
+        etaB = eta[keep]
+        yB = response(etaB, r)
+        terms = s(0, n_splines=rng.randint(5, 8)) + f(1)
+        if with_lin:
+            terms = terms + l(2)
+        inp = dict(probe='search-on-other-data', cls=cls, rows_A=int(nA), rows_B=int(keep.sum()), levels=int(nlev), B=kindB,
+                   linear_term=with_lin, keep_best=keep_best, data_seed=int(r.get_state()[1][0]))
+        try:
+            g = getattr(pygam, cls)(terms, tol=1e-8, max_iter=60)
+            quiet(g.fit, XA, yA)
+            before = snapshot_model(g, XA)
+            own = None
+            if keep_best:
+                # a grid that cannot beat the model: huge penalties on a response that is mostly noise
+                yB = yB if cls == 'LogisticGAM' else (np.abs(yB + 3.0 * np.std(yA) * r.randn(len(yB))) + 1e-3 if cls in ('GammaGAM',)
+                                                       else np.round(np.abs(yB + 3.0 * np.std(yA) * r.randn(len(yB)))) if cls == 'PoissonGAM'
+                                                       else yB + 3.0 * np.std(yA) * r.randn(len(yB)))
+                if cls == 'LogisticGAM':
+                    yB = (r.rand(len(yB)) < 0.5).astype(float)
+                lam = [1e4, 1e5]
+            else:
+                lam = [0.1, 1.0, 10.0]
+            out = quiet(g.gridsearch, XB, yB, lam=lam, keep_best=keep_best, return_scores=True, progress=False)
+        except ValueError as e:
+            res.count('other-data-probe:rejected')
+            continue
+        except Exception as e:
+            res.violations.append(dict(what='gridsearch of a fitted model on other data raised %s' % type(e).__name__, input=inp,
+                                       expected='a search', observed='%s: %s' % (type(e).__name__, e), finding=None))
+            continue
+        vals = [float(v) for v in out.values()] if isinstance(out, dict) else []
+        self_best = bool(vals) and vals[0] == min(vals) and vals.index(min(vals)) == 0
+        res.count('other-data-probe:%s:%s' % (kindB, 'keep_best' if keep_best else 'keep_best=False'))
+        res.case(('other-data', repr(sorted(inp.items()))), sample=inp if t == 0 else None, nontrivial=True)
+        if keep_best and not self_best:
+            res.count('other-data-probe:a-candidate-won')
+            continue
+        after = snapshot_model(g, XA)
+        changed = snapshot_diff(before, after)
+        if changed:
+            res.violations.append(dict(
+                what=('gridsearch(keep_best=False) on other data changed the already fitted model' if not keep_best else
+                      'gridsearch(keep_best=True) kept the fitted model itself as the best but it is no longer itself'),
+                input=inp, expected='coef_, statistics_, n_splines, edge_knots_ and predictions on the training data unchanged (bitwise)',
+                observed=changed[:6], finding=None))
+
+
 def tracking_probe(res, rng, count):
     """The real gridsearch loop driven with prescribed scores (a LinearGAM subclass whose fit() only records the next
     score of a seeded sequence with many ties): the kept model must be the FIRST model attaining the minimum,
@@ -531,6 +669,7 @@ def run(res):
     prove(res)
     combine_probe(res, rng)
     tracking_probe(res, rng, 80 if res.tier == 'quick' else 1500)
+    other_data_probe(res, common.rng_for(res.seed, PROP, 'other-data'), 40 if res.tier == 'quick' else 600)   # own stream: the main cases keep theirs
     count = 110 if res.tier == 'quick' else 2500
     cases, metas = [], []
     for i in range(count):
